@@ -14,13 +14,14 @@ open OntVerif.Util OntVerif.Model.NeoVal OntVerif.Model.NeoExec
 def R.safe {α : Type} : R α → Prop
   | .panic => False
   | .fuel => False
-  | _ => True
+  | _ => True   -- value, fault, outside the model, dangling (excluded by `Proofs/NeoExecInv`), and `overflow`: the Go stack overflow of reflect.DeepEqual
 
 @[simp] theorem safe_ok {α : Type} (a : α) : R.safe (R.ok a) := trivial
 @[simp] theorem safe_pure {α : Type} (a : α) : R.safe (pure a : R α) := trivial
 @[simp] theorem safe_fault {α : Type} : R.safe (R.fault : R α) := trivial
 @[simp] theorem safe_unmod {α : Type} : R.safe (R.unmod : R α) := trivial
 @[simp] theorem safe_dangling {α : Type} : R.safe (R.dangling : R α) := trivial
+@[simp] theorem safe_overflow {α : Type} : R.safe (R.overflow : R α) := trivial
 
 theorem safe_bind {α β : Type} {x : R α} {f : α → R β} (hx : R.safe x) (hf : ∀ a, x = .ok a → R.safe (f a)) :
     R.safe (x >>= f) := by
@@ -31,6 +32,7 @@ theorem safe_bind {α β : Type} {x : R α} {f : α → R β} (hx : R.safe x) (h
   | unmod => trivial
   | dangling => trivial
   | fuel => exact hx
+  | overflow => trivial
 
 theorem safe_rbind {α β : Type} {x : R α} {f : α → R β} (hx : R.safe x) (hf : ∀ a, x = .ok a → R.safe (f a)) :
     R.safe (x.bind f) := safe_bind hx hf
@@ -525,17 +527,23 @@ theorem cloneStruct_safe (f : Nat) (h0 : Heap) (r : Ref) (h : Heap) (len : Nat)
 @[simp] theorem opEqual_safe (m : M) : R.safe (opEqual m) := by
   unfold opEqual; safe_auto
 
-@[simp] theorem opIncDec_safe (m : M) (n : Nat) : R.safe (opIncDec m n) := by
-  unfold opIncDec; safe_auto
+@[simp] theorem niResult_safe (r : Except OntVerif.Model.NeoInt.Fault OntVerif.Model.NeoInt.Val) : R.safe (niResult r) := by
+  unfold niResult; split <;> trivial
+
+@[simp] theorem opUnaryInt_safe (m : M) (n : Nat) : R.safe (opUnaryInt m n) := by
+  unfold opUnaryInt; safe_auto
+
+@[simp] theorem opBinaryInt_safe (m : M) (n : Nat) : R.safe (opBinaryInt m n) := by
+  unfold opBinaryInt; safe_auto
+
+@[simp] theorem opWithin_safe (m : M) : R.safe (opWithin m) := by
+  unfold opWithin; safe_auto
 
 @[simp] theorem opNot_safe (m : M) : R.safe (opNot m) := by
   unfold opNot; safe_auto
 
-@[simp] theorem opAddSub_safe (m : M) (n : Nat) : R.safe (opAddSub m n) := by
-  unfold opAddSub; safe_auto
-
-@[simp] theorem opLtGt_safe (m : M) (n : Nat) : R.safe (opLtGt m n) := by
-  unfold opLtGt; safe_auto
+@[simp] theorem opBoolBin_safe (m : M) (n : Nat) : R.safe (opBoolBin m n) := by
+  unfold opBoolBin; safe_auto
 
 @[simp] theorem opArraySize_safe (m : M) : R.safe (opArraySize m) := by
   unfold opArraySize; safe_auto
@@ -704,15 +712,6 @@ theorem set_safe (index : Val) (data : List Val) (v : Val) (k : List Val → R M
     · trivial
     · trivial
   · trivial
-
-theorem safe_ite {α : Type} {c : Prop} [Decidable c] {a b : R α} (ha : R.safe a) (hb : R.safe b) :
-    R.safe (if c then a else b) := by
-  split <;> assumption
-
-/-- every opcode byte, every machine state: a new state, a fault, or "outside the model" -/
-theorem step_safe (m : M) (opn : Nat) : R.safe (step m opn) := by
-  unfold step
-  repeat' (first | (with_reducible apply safe_ite) | exact trivial | (simp; done))
 
 /-! ### `convertNeoVmValueHexString`: the element counter only grows, `MAX_COUNT + 3` levels are enough on every heap -/
 
@@ -958,6 +957,66 @@ theorem natv_cyc_int (f : Nat) (path : List Nat) : natv .asShipped Perm.id cyc (
   unfold natv
   rw [det_cyc_int]
   rfl
+
+
+/-! ### SYSCALL -/
+
+@[simp] theorem sysSerialize_safe (serF : Heap → Val → Except VErr Bytes) (m : M) : R.safe (sysSerialize serF m) := by
+  unfold sysSerialize; safe_auto
+
+open OntVerif.Proofs.NeoVal in
+@[simp] theorem sysDeserialize_safe (m : M) : R.safe (sysDeserialize m) := by
+  unfold sysDeserialize
+  refine safe_bind (popAsBytes_safe _) ?_
+  intro ⟨data, d⟩ _
+  dsimp only
+  split
+  · trivial
+  · rename_i hlen
+    have hg := deserialize_good data (by unfold OntVerif.Model.Codec.two64; unfold DESER_MODEL_LIMIT at hlen; omega)
+    split
+    · simp
+    · rename_i he; rw [he] at hg; exact absurd rfl hg.1
+    · rename_i he; rw [he] at hg; exact absurd rfl hg.2
+    · trivial
+
+@[simp] theorem sysNotify_safe (m : M) : R.safe (sysNotify m) := by
+  unfold sysNotify
+  refine safe_bind (vsPop_safe _) ?_
+  intro ⟨item, d⟩ _
+  refine safe_bind (convertHexOk_safe _ _) ?_
+  intro ok _
+  split <;> trivial
+
+@[simp] theorem sysDispatch_safe (serF : Heap → Val → Except VErr Bytes) (m : M) (fb pos : Nat) : R.safe (sysDispatch serF m fb pos) := by
+  unfold sysDispatch
+  split
+  · trivial
+  · refine safe_bind (readBytes_safe_nat _ _ _ _) ?_
+    intro ⟨name, pos'⟩ _
+    dsimp only
+    split
+    · trivial
+    · split
+      · exact sysSerialize_safe _ _
+      · split
+        · exact sysDeserialize_safe _
+        · split
+          · exact sysNotify_safe _
+          · trivial
+
+@[simp] theorem opSyscall_safe (serF : Heap → Val → Except VErr Bytes) (m : M) : R.safe (opSyscall serF m) := by
+  unfold opSyscall
+  split <;> exact sysDispatch_safe _ _ _ _
+
+theorem safe_ite {α : Type} {c : Prop} [Decidable c] {a b : R α} (ha : R.safe a) (hb : R.safe b) :
+    R.safe (if c then a else b) := by
+  split <;> assumption
+
+/-- every opcode byte, every machine state: a new state, a fault, or "outside the model" -/
+theorem step_safe (serF : Heap → Val → Except VErr Bytes) (m : M) (opn : Nat) : R.safe (step serF m opn) := by
+  unfold step
+  repeat' (first | (with_reducible apply safe_ite) | exact trivial | (simp; done))
 
 
 end OntVerif.Proofs.NeoExec
